@@ -791,6 +791,117 @@ def corrupt(rng, text):
     return text[:i] + text[i:j][::-1] + text[j:]
 
 
+
+# ------------------------------------------------------------------------------------------------
+# numeric literals in documents: a parsed number is the literal, or the parse is an error
+
+from fractions import Fraction
+
+
+def nearest_bits(fr, p, qmin, inf_bits):
+    """bit pattern (without sign) of |fr| rounded to nearest-even in a binary format with p significand bits and
+    least quantum 2^qmin; exact integer arithmetic"""
+    a = abs(fr)
+    if a == 0:
+        return 0
+    n, d = a.numerator, a.denominator
+    e = n.bit_length() - d.bit_length()
+    if (n << max(0, -e)) < (d << max(0, e)):
+        e -= 1
+    q = max(e + 1 - p, qmin)
+    num, den = (n, d << q) if q >= 0 else (n << -q, d)
+    r, rem = divmod(num, den)
+    if 2 * rem > den or (2 * rem == den and (r & 1)):
+        r += 1
+    bits = (q - qmin) * (1 << (p - 1)) + r
+    return min(bits, inf_bits)
+
+
+def f64_fraction(bits):
+    """exact value of a finite f64, None for inf / NaN"""
+    e = (bits >> 52) & 0x7FF
+    f = bits & ((1 << 52) - 1)
+    if e == 0x7FF:
+        return None
+    m = f if e == 0 else f + (1 << 52)
+    v = Fraction(m) * Fraction(2) ** (max(e, 1) - 1075)
+    return -v if bits >> 63 else v
+
+
+NUM_BOUNDS = [-2**63, 2**63 - 1, 2**63, 2**64 - 1, 2**64, 2**53, -2**53, 2**31, -2**31, 2**32, 2**127, -2**127, 2**128,
+              10**19, -10**19]
+NUM_HUGE = [1234567890123456789012345678901234567890, -1234567890123456789012345678901234567890, 10**39 + 7,
+            -(10**39 + 7), 10**400]
+NUM_FLOATS = ["1e308", "1e309", "-1e309", "1e-400", "-1e-400", "1.7976931348623157e308", "1.7976931348623159e308",
+              "2e308", "4.9e-324", "2.4e-324", "2.5e-324", "9.223372036854775807e18", "1.8446744073709551615e19",
+              "0.1", "123456789012345678901234567890.5", "1e22", "1e23", "9007199254740993.0"]
+
+
+def numeric_literals():
+    lits = []
+    for b in NUM_BOUNDS:
+        for d in (-2, -1, 0, 1, 2):
+            lits.append(str(b + d))
+    lits += [str(h) for h in NUM_HUGE] + NUM_FLOATS
+    return sorted(set(lits), key=lambda x: (len(x), x))
+
+
+def numlit_docs(lit):
+    """(fmt, document, path to the literal in the parsed value)"""
+    return [
+        ("json", lit, []), ("json", f"[0, {lit}]", [1]), ("json", '{"a": {"b": [' + lit + ']}}', ["a", "b", 0]),
+        ("yaml", lit, []), ("yaml", f"- 0\n- {lit}\n", [1]), ("yaml", f"a:\n  b:\n  - {lit}\n", ["a", "b", 0]),
+        ("toml", f"a = {lit}\n", ["a"]), ("toml", f"a = [0, {lit}]\n", ["a", 1]),
+        ("toml", f"[a]\nb = [{lit}]\n", ["a", "b", 0]),
+    ]
+
+
+def kv_at(v, path):
+    for p in path:
+        if v is None:
+            return None
+        if isinstance(p, int):
+            if v[0] not in ("L", "T") or p >= len(v[1]):
+                return None
+            v = v[1][p]
+        else:
+            if v[0] != "M":
+                return None
+            hit = [x for k, x in v[1] if k == ["s", cps(p)]]
+            if not hit:
+                return None
+            v = hit[0]
+    return v
+
+
+def numlit_verdict(lit, got):
+    """None when `got` (the koto value the parser produced for the literal) is acceptable, else a message.
+    Acceptable: the very same number as an integer; or, for a literal that is not an integer of the i64 range,
+    the correctly rounded finite f64 (underflow to zero is rounding; overflow to infinity is not);
+    or the literal's text as a string (the format does not read it as a number)."""
+    if got is None:
+        return "the document parsed but the literal's position holds no value"
+    want = Fraction(lit)
+    is_int_lit = all(c in "-0123456789" for c in lit)
+    if got[0] == "s":
+        return None if got[1] == cps(lit) else "parsed as a different string"
+    if got[0] == "i":
+        return None if Fraction(got[1]) == want else f"integer {got[1]} for the literal {lit[:50]} (clamped / wrapped)"
+    if got[0] == "d":
+        if is_int_lit and -2**63 <= want <= 2**63 - 1:
+            return f"float for an integer literal of the i64 range"
+        exact = f64_fraction(got[1])
+        if exact is None:
+            return "infinity / NaN for a finite literal (clamped)"
+        if exact == want:
+            return None
+        nb = nearest_bits(want, 53, -1074, 0x7FF0000000000000)
+        if nb == 0x7FF0000000000000 or nb != (got[1] & ((1 << 63) - 1)) or (want < 0) != bool(got[1] >> 63) and want != 0:
+            return f"float {got[1]:#x} is not the literal {lit[:50]} rounded to nearest"
+        return None
+    return f"a {got[0]} for a numeric literal"
+
+
 # ------------------------------------------------------------------------------------------------
 
 def load_corpus():
@@ -985,6 +1096,9 @@ def run(tier, seed):
                 p2.append(("from-mutated", {"op": "from", "ty": c["ty"], "v": mutate_kv(rng, r["kv"])}))
         if c["op"] == "text" and r.get("text") is not None and len(r["text"]) < 3000:
             texts[c["fmt"]].append(r["text"])
+    for lit in numeric_literals():
+        for f, doc, path in numlit_docs(lit):
+            p2.append(("doc-numlit", {"op": "parse", "fmt": f, "text": cps(doc), "_lit": lit, "_path": path}))
     for f in FMTS:
         for t in DOCS[f]:
             p2.append(("doc", {"op": "parse", "fmt": f, "text": cps(t)}))
@@ -1215,6 +1329,12 @@ def run(tier, seed):
                     fails.append("second round trip of a parsed value is not the identity")
             if r.get("r1") != r.get("api_r1"):
                 fails.append("script and Rust API disagree")
+            if "_lit" in c and r.get("r1") is not None:
+                msg = numlit_verdict(c["_lit"], kv_at(r["r1"], c["_path"]))
+                if msg:
+                    fails.append("out-of-range / unrepresentable number accepted as a different number: " + msg)
+                elif r.get("r2") is not None and not same_value(r["r2"], r["r1"]):
+                    fails.append("the parsed number re-serialises to a different number")
             if fails:
                 d_fail.append((i, fails))
             chk.count_case(json.dumps(c), r.get("r1") is not None)
@@ -1232,7 +1352,20 @@ def run(tier, seed):
         if not any(o[0] == name for o in chk.obligations):
             chk.oblige(name, False, f"{len(disagree[name])} disagreements")
 
-    # C20d: an out-of-range / fractional number accepted silently for an integer type (from_koto_value)
+    # from_koto_value into f32 / f64: the number itself or its correct rounding (not covered by any known class)
+    for i, ((origin, c), r) in enumerate(zip(all_cases, all_impl)):
+        if c["op"] == "from" and tmap.get(c["ty"], [""])[0] in ("f32", "f64") and c["v"][0] in ("i", "d") and r.get("y") is not None:
+            src = Fraction(c["v"][1]) if c["v"][0] == "i" else f64_fraction(c["v"][1])
+            if src is None:
+                continue
+            if tmap[c["ty"]][0] == "f64":
+                want = nearest_bits(src, 53, -1074, 0x7FF0000000000000) | ((1 << 63) if (src < 0 or (c["v"][0] == "d" and c["v"][1] >> 63)) else 0)
+            else:
+                want = nearest_bits(src, 24, -149, 0x7F800000) | ((1 << 31) if (src < 0 or (c["v"][0] == "d" and c["v"][1] >> 63)) else 0)
+            if r["y"][1] != want:
+                d_fail.append((i, [f"from_koto_value into {c['ty']}: {r['y'][1]:#x} is not the input number rounded to nearest ({want:#x})"]))
+    # C20d: an out-of-range / fractional number accepted silently for an integer type (from_koto_value ONLY:
+    # the text -> KValue visitor is judged by the numeric-literal predicate above and has no known class)
     for i, ((origin, c), r) in enumerate(zip(all_cases, all_impl)):
         if c["op"] == "from" and tmap.get(c["ty"], [""])[0] == "int" and c["v"][0] in ("i", "d") and r.get("y") is not None:
             lo, hi = KIND_RANGE[tmap[c["ty"]][1]]
@@ -1261,7 +1394,8 @@ def run(tier, seed):
         d_fail.sort(key=lambda x: size(x[0]))
         i, fails = d_fail[0]
         case = {k: v for k, v in all_cases[i][1].items() if not k.startswith("_")}
-        chk.violation("input", {"kind": "input", "case": case, "origin": all_cases[i][0], "impl_says": all_impl[i],
+        aux = {k: v for k, v in all_cases[i][1].items() if k in ("_lit", "_path")}
+        chk.violation("input", {"kind": "input", "case": case, "aux": aux, "origin": all_cases[i][0], "impl_says": all_impl[i],
                                 "predicate_failed": fails, "others": len(d_fail) - 1,
                                 "how_to_rerun": "./check C20 --replay <this file>"})
         chk.log(f"{len(d_fail)} inputs violate C20 on the implementation; smallest: {json.dumps(case)[:300]} {fails[:2]}")
@@ -1333,6 +1467,11 @@ def replay(path, args):
         if r.get("built") and r.get("y") != r.get("x"):
             fails.append("typed value changed")
     elif op == "parse":
+        aux = data.get("aux") or {}
+        if "_lit" in aux and r.get("r1") is not None:
+            msg = numlit_verdict(aux["_lit"], kv_at(r["r1"], aux["_path"]))
+            if msg:
+                fails.append("out-of-range / unrepresentable number accepted as a different number: " + msg)
         if r.get("r1") is not None and r.get("t2_ok") and (r.get("r2") is None or (r.get("r3") is not None and not same_value(r["r3"], r["r2"]))):
             fails.append("second round trip of a parsed value is not the identity")
     for f in fails:
